@@ -15,6 +15,15 @@ def single(x):
     return int(struct.unpack('<f', struct.pack('<f', float(x)))[0])
 
 
+def trunc24(x):
+    """what a BASIC single-precision function result can show of a non-negative integer: exact below 2^24,
+    24 significant bits above (LOF, LOC)."""
+    if x < 2 ** 24:
+        return x
+    k = x.bit_length() - 24
+    return (x >> k) << k
+
+
 def z(x):
     return '(%d)' % x if x < 0 else '%d' % x
 
@@ -112,7 +121,7 @@ class C25(core.Check):
     PROPS = 'props/C25.v'
     MODEL_IMPORTS = ['gen.Gen_locks', 'model.Locks', 'model.RandomFile']
     QUICK_CASES = 500
-    THOROUGH_CASES = 4000
+    THOROUGH_CASES = 3000
     TRUSTED = ['hand model model/RandomFile.v: the host stream (seek/read/write/tell of a Python binary file object '
                'with zero fill past the end) is a MODEL of io, not verified; RandomFile.get/put/_set_record_pos/'
                'eof/lof/loc control flow, FieldFile.set_buffer, LSET/RSET into the FIELD buffer and the statement '
@@ -144,6 +153,11 @@ class C25(core.Check):
             {'ops': [['open', 2, 1], ['get', 2, 0], ['get', 2, -1], ['get', 2, 2 ** 25], ['query', 2],
                      ['get', 2, 2 ** 25 + 2], ['query', 2], ['get', 2, 2 ** 25 + 3], ['put', 2, 2 ** 25 + 4],
                      ['get', 2, None], ['get', 2, 2 ** 24 + 1], ['query', 2], ['put', 2, 0]]},
+            # LOC above 2^24 is shown with 24 significant bits (K25a); implicit GET past record 2^25
+            {'ops': [['open', 1, 2], ['get', 1, 2 ** 24 - 1], ['query', 1], ['get', 1, None], ['query', 1],
+                     ['get', 1, None], ['query', 1], ['get', 1, None], ['query', 1], ['get', 1, 2 ** 24 + 3],
+                     ['query', 1], ['get', 1, 2 ** 25], ['get', 1, None], ['query', 1], ['get', 1, None],
+                     ['query', 1]]},
             # errors: not open, open twice, LEN out of range, FIELD overflow
             {'ops': [['get', 1, 1], ['put', 3, 1], ['query', 2], ['field', 1, 0, 2, 0, ab], ['open', 1, 0],
                      ['open', 1, 129], ['open', 1, 128], ['open', 1, 2], ['field', 1, 100, 29, 0, ab],
@@ -378,9 +392,10 @@ class C25(core.Check):
                     ref.buf[:ref.L] = want
             elif k == 'query' and ref.open and ok:
                 lof, loc, eof = r[1]
-                if lof != ref.length:
+                # LOF and LOC are BASIC single-precision numbers: exact below 2^24 (fixes/K25a.json above)
+                if lof != trunc24(ref.length):
                     return where + 'LOF = %d, but record length * highest record written = %d' % (lof, ref.length)
-                if loc != ref.loc:
+                if loc != trunc24(ref.loc):
                     return where + 'LOC = %d, last record accessed = %d' % (loc, ref.loc)
         for n in (1, 2, 3):
             if refs[n].L and fin[n - 1][0] != refs[n].flat():
@@ -388,6 +403,21 @@ class C25(core.Check):
             if fin[n - 1][1] != bytes(refs[n].buf):
                 return 'FIELD buffer of #%d differs from the reference' % n
         return None
+
+
+    # ---- known finding K25a: LOF()/LOC() are single-precision numbers
+    K25A = [['open', 1, 2], ['get', 1, 2 ** 24 + 1], ['get', 1, None], ['query', 1]]
+
+    def known_match(self, finding, case, out):
+        return False
+
+    def known_rerun(self, finding):
+        if finding.get('id') != 'K25a':
+            return True
+        out = self.impl({'ops': self.K25A})
+        res, _ = decode(out, self.K25A)
+        # record pointer is 2^24 + 1 (GET 16777217 rounds to 16777216, then one implicit GET), LOC shows 2^24
+        return res[3] == ('ok', [0, 2 ** 24, -1])
 
 
 CHECK = C25
